@@ -32,7 +32,11 @@ type scriptedResolver struct {
 	err error
 }
 
-func (r scriptedResolver) ClientIP(fox.Context) (*net.IPAddr, error) {
+func (r scriptedResolver) ClientIP(c fox.Context) (*net.IPAddr, error) {
+	if v := c.Request().Header.Get(realIPHeader); v != "" && r.err == nil {
+		// like a header-based resolver: the answer belongs to the request as it is when asked
+		return &net.IPAddr{IP: net.ParseIP(v)}, nil
+	}
 	if r.err != nil {
 		if r.ip != "" {
 			// a resolver may hand back its rejected candidate together with the reason: resolution still failed
@@ -44,6 +48,12 @@ func (r scriptedResolver) ClientIP(fox.Context) (*net.IPAddr, error) {
 }
 
 var errResolver = errors.New("scripted resolver failure")
+
+// realIPHeader, when present on the request, is what a succeeding scripted resolver answers with.
+const (
+	realIPHeader = "X-Sim-Real-Ip"
+	realIPValue  = "203.0.113.200"
+)
 
 // remoteMarker stands for "the remote address as Context.RemoteIP reports it for this request".
 const remoteMarker = "<remote address>"
@@ -185,13 +195,25 @@ func runC20(src sim.Source, o Opts) *Result {
 		// the peer address: IPv4, IPv6, IPv6 with a zone, and forms without a parsable IP (unix-socket peers)
 		remote := sim.Pick(src, "remoteaddr", []string{"192.0.2.1:1234", "192.0.2.1:1234", "[2001:db8::1]:80", "[fe80::1%eth0]:1234", "@", ""})
 		remoteSeen := "<not observed>"
-		scripts[len(scripts)-1] += " from " + remote
+		realIP := kind != model.KRedirect && src.Intn("realip", 4) == 3
+		if realIP {
+			res.inc("requests_replaced_after_client_ip_was_asked")
+		}
+		scripts[len(scripts)-1] += fmt.Sprintf(" from %s (request replaced after ClientIP was asked: %v)", remote, realIP)
 		remoteWant := map[string]string{"192.0.2.1:1234": "192.0.2.1", "[2001:db8::1]:80": "2001:db8::1", "[fe80::1%eth0]:1234": "fe80::1%eth0", "@": "", "": ""}[remote]
 		run := func(ww *world.World, returned *bool) world.ServeObs {
 			conn := world.NewConn()
 			log := &world.ReqLog{Inner: func(c fox.Context, h *world.Hit) {
 				if ww == w {
 					remoteSeen = c.RemoteIP().String()
+				}
+				if realIP {
+					// a guard asks for the client address, then a "real IP" stage replaces the request by one with
+					// corrected forwarding information: the record is about the request as the handler leaves it
+					_, _ = c.ClientIP()
+					r2 := c.Request().Clone(c.Request().Context())
+					r2.Header.Set(realIPHeader, realIPValue)
+					c.SetRequest(r2)
 				}
 				wr := c.Writer()
 				switch beh {
@@ -317,6 +339,9 @@ func runC20(src sim.Source, o Opts) *Result {
 		classes[levelOf(wantStatus)] = true
 		kinds[kind] = true
 		wantMsg := expectMsg(kind, r)
+		if realIP && wantMsg != remoteMarker && wantMsg != "unknown" {
+			wantMsg = realIPValue
+		}
 		if wantMsg == remoteMarker {
 			wantMsg = remoteWant
 			if remoteSeen != "<not observed>" && remoteSeen != remoteWant {
